@@ -5,6 +5,7 @@ CONSTANTS
   Epoch = 2
   InitNumber = 2
   InitSet = {3}
+  InitAnn = {3}
   InitSigner = 3
   MaxNumber = 1000
   UpgradeSets = {}
